@@ -44,6 +44,19 @@ CROSS_FAMILIES = {
                              solve_time=0.05, k=4),
 }
 CROSS_THREADS_QUICK = [2, 5, 8, 16]
+# a drive for which the random validation times WOULD matter if they leaked into the run: the current equals its t = 0 value
+# except on a window of 0.7 % of the run (it contains exactly one step time); the scripted draws of one child hit the window,
+# those of another miss it, the others draw naturally
+PULSE_STEPS = 128
+PULSE = dict(I=8.0, t0=64 * DT - 0.003, w=0.014)
+SPECIAL_FAMILIES = {
+    "pulse/draws-hit-or-miss": dict(dev="bar", pulse=PULSE, field=0.3, adaptive=False, dt=DT, solve_time=PULSE_STEPS * DT - DT / 2, k=16),
+    # relax, then continue TWICE from the same in-memory seed Solution (screening on): both continuations must be equal and the
+    # inputs (seed arrays, device/mesh arrays, a user array handed to a Parameter) must not be mutated
+    "seed-reused/screening": dict(dev="bar", seed_reuse=dict(relax=6, cont=5), current=2.0, adaptive=False, dt=DT, solve_time=5 * DT - DT / 2,
+                                  screening=True, k=2),
+}
+SPECIAL_THREADS_QUICK = [1, 3, 8, 16]
 THOROUGH_FAMILIES = {
     "screening/adaptive/ramp": dict(dev="barhole", current=3.0, current_ramp=0.1, field=0.6, field_ramp=0.2, adaptive=True, dt=DT, dt_max=0.03,
                                     solve_time=0.3, screening=True, k=3),
@@ -93,6 +106,59 @@ def _file_obs(path):
         f.visititems(visit)
         obs["file/nframes"] = _h(np.array([len(f["data"])]))
     return obs
+
+
+def _user_potential(x, y, z, *, w):
+    """A user-written applied potential that reads a user-supplied array (symmetric gauge, field w[0] * w[1] mT)."""
+    import numpy as np
+    b = float(w[0]) * float(w[1])
+    return np.stack([-0.5 * b * y, 0.5 * b * x, np.zeros_like(x)], axis=1)
+
+
+def _pulse(pulse):
+    I, t0, w = pulse["I"], pulse["t0"], pulse["w"]
+
+    def terminal_currents(t):
+        on = I if t0 <= t < t0 + w else 0.0
+        return {"source": on, "drain": -on}
+    return terminal_currents
+
+
+def _seed_reuse(tdgl, a, dev, work, obs):
+    """relax -> continue twice from the SAME in-memory seed; returns the observations of each stage as separate runs."""
+    import dataclasses
+
+    import numpy as np
+    from harness import twin
+
+    user = np.array([1.6, 0.25])
+    kw = twin.drive(tdgl, a)
+    kw["applied_vector_potential"] = tdgl.Parameter(_user_potential, w=user)
+    n = a["seed_reuse"]
+    dt = a["dt"]
+    seed = tdgl.solve(dev, twin.options(tdgl, dict(a, solve_time=n["relax"] * dt - dt / 2), os.path.join(work, "relax.h5")), **kw)
+
+    def inputs():
+        o = {}
+        for f in dataclasses.fields(seed.tdgl_data):
+            v = getattr(seed.tdgl_data, f.name)
+            if isinstance(v, np.ndarray):
+                o[f"seed/{f.name}"] = _h(v)
+        o["seed/user array of the Parameter"] = _h(user)
+        o["seed/Parameter kwargs array"] = _h(kw["applied_vector_potential"].kwargs["w"])
+        o.update(_mesh_obs(dev.mesh, "seed/device.mesh"))
+        o["seed/device.points"] = _h(dev.points)
+        return o
+    runs = {"inputs before": inputs()}
+    for c in (1, 2):
+        sol = tdgl.solve(dev, twin.options(tdgl, dict(a, solve_time=n["cont"] * dt - dt / 2), os.path.join(work, f"cont{c}.h5")), seed_solution=seed, **kw)
+        o = {"cont/" + k: v for k, v in _file_obs(sol.path).items()}
+        o["cont/solution/psi"] = _h(np.asarray(sol.tdgl_data.psi))
+        o["cont/solution/induced"] = _h(np.asarray(sol.tdgl_data.induced_vector_potential))
+        runs[f"continuation {c}"] = o
+        runs[f"inputs after continuation {c}"] = inputs()
+    obs.update(_file_obs(seed.path))
+    return runs
 
 
 def child(args):
@@ -146,7 +212,13 @@ def child(args):
     dev2 = twin.build_device(tdgl, a)                     # and once more in the same process
     assert dev2.mesh is not dev.mesh
     obs.update(_mesh_obs(dev2.mesh, "mesh/fresh"))
+    if a.get("seed_reuse"):
+        extra = _seed_reuse(tdgl, a, dev, work, obs)
+        return {"obs": obs, "extra_runs": extra, "draws": draws, "threads": numba.config.NUMBA_NUM_THREADS, "hashseed": os.environ.get("PYTHONHASHSEED"),
+                "nframes": len([k for k in obs if k.endswith("/psi") and k.startswith("file/data/")])}
     kw = twin.drive(tdgl, a)
+    if a.get("pulse"):
+        kw["terminal_currents"] = _pulse(a["pulse"])
     if a.get("currents"):
         base = {k: (np.float64(v) if a.get("numpy_scalars") else v) for k, v in a["currents"].items()}
         if a.get("current_ramp"):
@@ -296,12 +368,31 @@ def _model_part(ctx, sks, deferred):
 DEFAULT_ORDERS = [[1, 2, 3], [3, 1, 2], [2, 3, 1], [3, 2, 1]]
 
 
+def _draw_seeds(ph, num_evals=100):
+    """Generator seeds whose first `num_evals` uniform draws, scaled like the validator's sample times, hit / miss the pulse window."""
+    import numpy as np
+    t0, w, T = ph["pulse"]["t0"], ph["pulse"]["w"], ph["solve_time"]
+    hit = miss = None
+    for seed in range(500, 900):
+        times = np.random.default_rng(seed).random(num_evals) * T
+        inside = bool(np.any((times >= t0) & (times < t0 + w)))
+        if inside and hit is None:
+            hit = seed
+        if not inside and miss is None:
+            miss = seed
+        if hit is not None and miss is not None:
+            return hit, miss
+    raise RuntimeError("no hit/miss seeds found")
+
+
 def _dynamic_part(ctx, orders, deferred):
     from harness import core, kernelsk, twin
 
     # ---------------------------------------------------------------- 2. real executions in fresh processes
     fams = dict(FAMILIES)
     fams.update(CROSS_FAMILIES)
+    fams.update(SPECIAL_FAMILIES)
+    hit, miss = _draw_seeds(SPECIAL_FAMILIES["pulse/draws-hit-or-miss"])
     if not ctx.quick:
         fams.update(THOROUGH_FAMILIES)
     jobs = []
@@ -312,13 +403,16 @@ def _dynamic_part(ctx, orders, deferred):
     jobs.append(("kernels", dict(mode="kernels", work=str(ctx.tmp / "kern"), threads=THREADS, orders={k: [list(o) for o in v] for k, v in sched.items()}), 16, 11))
     n = 0
     for fi, (label, ph) in enumerate(fams.items()):
-        for ti, T in enumerate(CROSS_THREADS_QUICK if (ctx.quick and label in CROSS_FAMILIES) else THREADS):
+        few = CROSS_THREADS_QUICK if label in CROSS_FAMILIES else SPECIAL_THREADS_QUICK if label in SPECIAL_FAMILIES else None
+        for ti, T in enumerate(few if (ctx.quick and few) else THREADS):
             locs = [ti % 2] if ctx.quick else [0, 1]
             for loc in locs:
                 n += 1
                 outname = ["a/out.h5", "elsewhere/deep er/result file.h5"][loc]
                 a = dict(physics=ph, work=str(ctx.tmp / f"proc{n}"), outname=outname, poison=1000 + n,
                          rng_seed=(None if n % 3 == 0 else 77 + n))
+                if ph.get("pulse"):       # first child: draws that hit the pulse; second: draws that miss it; then natural / other seeds
+                    a["rng_seed"] = hit if ti == 0 and loc == locs[0] else miss if ti == 1 and loc == locs[0] else (None if ti % 2 == 0 else 77 + n)
                 jobs.append((label, a, T, 100 + 7 * n))
     with ThreadPoolExecutor(max_workers=6) as ex:
         results = list(ex.map(lambda j: _spawn(j[1], j[2], j[3], timeout=(60 if ctx.violations else 300) if ctx.quick else 600), jobs))
@@ -348,9 +442,12 @@ def _dynamic_part(ctx, orders, deferred):
         for j, res in zip(jobs, results):
             if j[0] != label:
                 continue
-            rid = f"T{j[2]}/seed{j[3]}/{j[1]['outname'].split('/')[0]}/poison{j[1]['poison']}"
+            rid = f"T{j[2]}/seed{j[3]}/{j[1]['outname'].split('/')[0]}/poison{j[1]['poison']}/draws:{j[1].get('rng_seed')}"
             for key in sorted(res["obs"]):
                 ev.append({"run": rid, "key": key, "q": [intern(res["obs"][key])]})
+            for sub, o in res.get("extra_runs", {}).items():      # several observers inside one process (e.g. two continuations of one seed)
+                for key in sorted(o):
+                    ev.append({"run": f"{rid}/{sub}", "key": key, "q": [intern(o[key])]})
             drawsets.add(tuple(res["draws"]))
             ctx.note_case((label, rid), res["nframes"] >= 2)
         if len(drawsets) < 2 or not all(drawsets):
